@@ -99,7 +99,14 @@ func (r *CopyOnWriteMap[K, V]) ComputeIf(k K, pred func(V) bool, f func() V) V {
 	}
 
 	nv := f()
+	var out V
 	r.copyOnWrite(func(om fp.UnsafeGoMap[K, V]) fp.UnsafeGoMap[K, V] {
+		// re-check under the write lock: another writer may have stored (or removed) k meanwhile
+		if cur := om.Get(k).FilterNot(pred); cur.IsDefined() {
+			out = cur.Get()
+			return om
+		}
+		out = nv
 		nm := fp.UnsafeGoMap[K, V]{}
 
 		for k, v := range om {
@@ -110,7 +117,7 @@ func (r *CopyOnWriteMap[K, V]) ComputeIf(k K, pred func(V) bool, f func() V) V {
 		return nm
 	})
 
-	return r.Get(k).Get()
+	return out
 }
 
 func (r *CopyOnWriteMap[K, V]) Updated(k K, v V) fp.MapBase[K, V] {
